@@ -72,3 +72,55 @@ def stdout_prints(root):
                         if not to_err:
                             out.append((rel, fn.name, node.lineno))
     return out
+
+
+# the functions of the decoder modules that write to stdout, with the number of print calls (without file=sys.stderr) and
+# sys.stdout.write calls each holds: the result printers of peltool.py, and the unreachable print of SRC.parse().  Published; a
+# count that differs (a diagnostic that lost its file=sys.stderr, a new print on a decoding path) is reported by C06 and C09.
+PUBLISHED_STDOUT_WRITERS = {
+    ("modules/pel/peltool/peltool.py", "deletePELFromPELId"): 1,
+    ("modules/pel/peltool/peltool.py", "extractAllPELsData"): 5,
+    ("modules/pel/peltool/peltool.py", "listOption"): 1,
+    ("modules/pel/peltool/peltool.py", "parseAndPrintPELFile"): 1,
+    ("modules/pel/peltool/peltool.py", "parsePelFromBmcID"): 2,
+    ("modules/pel/peltool/peltool.py", "parsePelFromID"): 1,
+    ("modules/pel/peltool/peltool.py", "parsePelFromPLID"): 1,
+    ("modules/pel/peltool/peltool.py", "parsePelFromSRCID"): 1,
+    ("modules/pel/peltool/peltool.py", "printPELCount"): 1,
+    ("modules/pel/peltool/peltool.py", "printPELInHexFormat"): 3,
+    ("modules/pel/peltool/src.py", "parse"): 1,
+}
+
+
+def stdout_writers(root):
+    """{(file, innermost function): number of writes to stdout} over the decoder modules"""
+    out = {}
+    for rel in DECODER_FILES:
+        p = os.path.join(root, rel)
+        try:
+            tree = ast.parse(open(p).read(), p)
+        except (OSError, SyntaxError):
+            out[(rel, "<unreadable>")] = 1
+            continue
+
+        def visit(node, fn):
+            for ch in ast.iter_child_nodes(node):
+                name = ch.name if isinstance(ch, (ast.FunctionDef, ast.AsyncFunctionDef)) else fn
+                if isinstance(ch, ast.Call):
+                    f = ch.func
+                    if isinstance(f, ast.Name) and f.id == "print":
+                        files = [k.value for k in ch.keywords if k.arg == "file"]
+                        if not (files and isinstance(files[0], ast.Attribute) and files[0].attr == "stderr"):
+                            out[(rel, name)] = out.get((rel, name), 0) + 1
+                    elif isinstance(f, ast.Attribute) and f.attr in ("write", "writelines") and ast.unparse(f.value) == "sys.stdout":
+                        out[(rel, name)] = out.get((rel, name), 0) + 1
+                visit(ch, name)
+        visit(tree, "<module>")
+    return out
+
+
+def unexpected_stdout_writers(root):
+    got = stdout_writers(root)
+    keys = sorted(set(got) | set(PUBLISHED_STDOUT_WRITERS))
+    return ["%s:%s writes to stdout %d time(s), published %d" % (k[0], k[1], got.get(k, 0), PUBLISHED_STDOUT_WRITERS.get(k, 0))
+            for k in keys if got.get(k, 0) != PUBLISHED_STDOUT_WRITERS.get(k, 0)]
